@@ -1,5 +1,7 @@
 import CJ.Drv.Loop
 import CJ.Drv.Config
+import CJ.Drv.ReloadSteps
+import CJ.Drv.BlocklistText
 /-! Driver for C19: configuration loading, reload, statistics printer. -/
 open CJ.Drv
 
@@ -9,4 +11,6 @@ def main : IO Unit := runDriver fun
   | "reload2" :: args => Config.handleReload2 args
   | "stats" :: args => Config.handleStats args
   | "ingestsrc" :: args => Config.handleIngestSrc args
+  | "onreload" :: args => ReloadSteps.handle args
+  | "loadtext" :: args => BlocklistText.handle args
   | _ => none
